@@ -14,8 +14,8 @@ META = {
                  "websocket connections against the real `adlt remote` binary built from the working tree; every "
                  "recorded session validated by TLC against the contract RemoteTrace.tla",
     "design_ref": "DESIGN.md section 6 C15 (reply table), Appendix M, Appendix C #8 #19 #20",
-    "level_text": "The reply-polarity table is exhaustive within bounds on the model (all histories <= 4/6 commands, "
-                  "pipelining depth 2/3). Against the binary: a seeded sample of the TLC-enumerated histories of <= 3 "
+    "level_text": "The reply-polarity table is exhaustive within bounds on the model (all histories <= 4(5) commands, "
+                  "pipelining depth 2; thorough also the full parameter-shape alphabet, <= 4 commands). Against the binary: a seeded sample of the TLC-enumerated histories of <= 3 "
                   "commands (quick) / all 2-command histories over the full parameter-shape alphabet + samples of 3- and "
                   "4-command histories (thorough), plus random histories of 20-200 commands; each observed session is "
                   "checked event by event by TLC (FIFO matching, exactly one reply, polarity per tracked state, id "
@@ -110,6 +110,8 @@ def check(ctx):
     rnd = random.Random(ctx.seed)
     # (a) model checking of the session model (reply table total and consistent, liveness)
     c.tlc_must_pass(ctx, "model", "Remote.tla", "Remote_quick.cfg" if quick else "Remote_thorough.cfg", timeout=3000)
+    if not quick:
+        c.tlc_must_pass(ctx, "model-full", "Remote.tla", "Remote_thorough_full.cfg", timeout=3000)
     # (b) scenario emission
     hists = []
     plan = [("Remote_emit_quick.cfg", 1500)] if quick else [("Remote_emit_full2.cfg", 8000), ("Remote_emit_quick.cfg", 6000),
@@ -184,12 +186,9 @@ def check(ctx):
     ctx.extra["path_hits"] = dict(sorted(paths.items()))
     ctx.extra["server_panics"] = info["panics"]
     ctx.extra["kf_switches"] = sw
-    ctx.extra["binding_selftest"] = binding_selftest(ctx, cases, v, sw)
     needed = ["open/nofile/ok", "open/file/err", "close/file/ok", "close/nofile/err", "stream/file/ok", "stop/file/ok",
               "stream_change_window/file/ok", "stream_search/file/ok", "stream_binary_search/file/ok", "query_end_marker", "bin_DltMsgs"]
     missing = [n for n in needed if paths[n] == 0]
-    if missing:
-        raise c.ToolError("vacuity: paths never hit: %s" % missing)
     for k in list(cases)[:2] + list(cases)[-3:-1]:
         ctx.add_sample({"case": k, "trace": cases[k][:14]})
     for k, labels in sorted(v.known.items()):
@@ -203,6 +202,10 @@ def check(ctx):
                       {"case": k, "trace": cases.get(k), "first_unmatched": r[2] if r else None,
                        "server_panics": info["panics"], "server_stderr": info["stderr"],
                        "how": "bin/check C15 %s with VERIF_SEED=%d; the case's cmd events carry the exact text frames" % (ctx.tier, ctx.seed)})
+    if not ctx.violations:          # tool-level sanity only when there is no verdict to report (never masks a violation)
+        if missing:
+            raise c.ToolError("vacuity: paths never hit: %s" % missing)
+        ctx.extra["binding_selftest"] = binding_selftest(ctx, cases, v, sw)
     ctx.assumptions = ["TLC and CommunityModules are correct",
                        "the driver's concretisation table (abstract command -> text) and reply classification are correct",
                        "websocket frames are received in the order the server wrote them",
